@@ -34,6 +34,7 @@ def gen(r, tier, i):
     if r.random() < 0.45:
         case = topo.gen_case(r, maxports=4)
         case['class'] = 'static'
+        case['entry'] = r.choice(['parts', 'parts', 'composite', 'store', 'store_init'])
         return case
     from vmon import structw
     return {'class': 'dynamic', 'cell_ts': r.choice([0.5, 1.0, 1.5, 0.75]), 'dir_as': r.choice(['process', 'step']),
@@ -136,7 +137,21 @@ def run_static(spec, V):
             node = node.setdefault(k, {})
         node[mpath[-1]] = mtop
     try:
-        e = Engine(processes=procs, steps=steps or None, topology=tops, initial_state=copy.deepcopy(init), display_info=False, emitter='null')
+        entry = spec.get('entry', 'parts')
+        if entry == 'parts':
+            e = Engine(processes=procs, steps=steps or None, topology=tops, initial_state=copy.deepcopy(init), display_info=False, emitter='null')
+        else:
+            from vivarium.core.composer import Composite
+            if entry == 'composite':
+                e = Engine(composite=Composite({'processes': procs, 'steps': steps, 'topology': tops, 'state': copy.deepcopy(init)}),
+                           display_info=False, emitter='null')
+            elif entry == 'store':
+                c = Composite({'processes': procs, 'steps': steps, 'topology': tops})
+                e = Engine(store=c.generate_store({'initial_state': copy.deepcopy(init)}), display_info=False, emitter='null')
+            else:
+                # the store is generated first; the initial state (which names the glob children) comes with the engine
+                c = Composite({'processes': procs, 'steps': steps, 'topology': tops})
+                e = Engine(store=c.generate_store({}), initial_state=copy.deepcopy(init), display_info=False, emitter='null')
         holder['e'] = e
         e.update(2.0)
         V.check('no_exception', True)
